@@ -1014,8 +1014,29 @@ func (p *Prover) Int(v ssa.Value, d int) (ILin, bool) {
 			}
 		}
 		if CalleeName(&x.Call) == "golang.org/x/sys/unix.CmsgSpace" {
+			// trusted summary (linux/amd64): CmsgSpace(n) = 16 + align8(n)
+			if in, ok := p.Int(x.Call.Args[0], d+1); ok {
+				if len(in.Coef) == 0 && in.C >= 0 {
+					return linK(16 + (in.C+7)&^7), true
+				}
+				a := p.atom(akInt, x)
+				p.setLo(a, 16)
+				if !p.seenDef[x] {
+					p.seenDef[x] = true
+					if mn, ok := p.minOf(in); ok && mn >= 0 {
+						r := lin1(a)
+						lo := r.add(in, -1)
+						lo.C -= 16
+						p.addDef(lo) // r - n - 16 >= 0
+						hi := in.add(r, -1)
+						hi.C += 23
+						p.addDef(hi) // n + 23 - r >= 0
+					}
+				}
+				return lin1(a), true
+			}
 			a := p.atom(akInt, x)
-			p.setLo(a, 0)
+			p.setLo(a, 16)
 			return lin1(a), true
 		}
 		if l, ok := p.callResult(x, 0, x, d); ok {
@@ -1032,6 +1053,8 @@ func (p *Prover) Int(v ssa.Value, d int) (ILin, bool) {
 	if bits := uintBits(v.Type()); bits > 0 {
 		p.setLo(a, 0)
 		p.setHi(a, int64(1)<<bits-1)
+	} else if b, ok := v.Type().Underlying().(*types.Basic); ok && b.Info()&types.IsUnsigned != 0 {
+		p.setLo(a, 0)
 	}
 	if ph, ok := v.(*ssa.Phi); ok && p.Set.PhiLower != nil && !p.seenDef[v] {
 		p.seenDef[v] = true
